@@ -123,3 +123,45 @@ func VH22b_device() {
 		d.Close()
 	}
 }
+
+// VH22c_inproc_mismatch: a dial from a socket of the wrong protocol is
+// rejected and leaves the inproc listener fully usable.
+func VH22c_inproc_mismatch() {
+	lab := "C12/inproc"
+	srv := vp.New("rep")
+	verif.Assert(srv.Listen("inproc://mm") == nil, lab+"/listen")
+	verif.Quiesce()
+	wrong := vp.New([]string{"push", "sub", "pair"}[verif.Choice("wrong", 3)])
+	var werr error
+	wg := verif.Go("wrong-dial", func() { werr = wrong.Dial("inproc://mm") })
+	verif.Quiesce()
+	verif.Assert(wg.Done(), lab+"/mismatched-dial-blocks")
+	if wg.Done() {
+		verif.Assert(werr == mangos.ErrBadProto, lab+"/mismatched-dial-error-kind")
+	}
+	// a correct peer still connects and is served
+	cli := vp.New("req")
+	var derr error
+	dg := verif.Go("dial", func() { derr = cli.Dial("inproc://mm") })
+	verif.Quiesce()
+	verif.Assert(dg.Done() && derr == nil, lab+"/listener-stopped-accepting-after-rejected-dial")
+	if !dg.Done() || derr != nil {
+		return
+	}
+	q := []byte{'q', verif.Byte("q")}
+	verif.Assert(cli.Send(q) == nil, lab+"/send")
+	verif.Quiesce()
+	m, err, done := recvOne(srv)
+	verif.Assert(done && err == nil && verif.BytesEq(m, q), lab+"/request-not-delivered-after-rejected-dial")
+	// every other call on the listener side still completes
+	g := verif.Go("poke", func() {
+		srv.GetOption(mangos.OptionRecvDeadline)
+		srv.SetOption(mangos.OptionRecvDeadline, 0)
+	})
+	verif.Quiesce()
+	verif.Assert(g.Done(), lab+"/socket-wedged")
+	verif.Reach("mismatch-checked")
+	wrong.Close()
+	cli.Close()
+	srv.Close()
+}
